@@ -47,6 +47,15 @@ def case_weight(x):
     return len(repr(x.t)) + len(repr(x.v))
 
 
+# operations of the implementation run whose abort is a violation of the property
+CRASH_OPS = {
+    "C01": ("ser", "hdr", "full"), "C02": ("eps",), "C03": ("eps", "alloc", "place"), "C04": ("feed", "cross"),
+    "C05": ("ser", "full", "eps", "dty"), "C06": ("ser", "feed", "full", "gold"), "C07": ("ser", "schema", "full", "eps", "place"),
+    "C08": ("load",), "C09": ("load",), "C10": ("flips",), "C11": ("cuts",), "C12": ("place",), "C13": ("wfault", "schema"),
+    "C14": ("rfault",), "C15": ("tags",), "C16": ("ser",), "C17": ("ser", "schema"), "C18": ("schema",),
+}
+
+
 def run_codec_property(v, prop, ops, oracle, rule_extra="", known=None):
     """oracle(c, x) -> None (holds) | str (violation) | ('known', text)."""
     info = run_proof_stage(v, prop)
@@ -67,9 +76,18 @@ def run_codec_property(v, prop, ops, oracle, rule_extra="", known=None):
             continue                     # wrongly declared types: outside every other property
         if getattr(x, "pair_only", False) and prop not in ("C01", "C02", "C04", "C05", "C06", "C07"):
             continue                     # near-miss partners carry only ser / feed / cross / full / eps / schema
-        r = oracle(c, x)
-        if (x.cid, "crash") in c.iobs and not r:
-            r = "the process aborted while handling bytes produced by serialization: %s" % c.iobs[(x.cid, "crash")]
+        crash = c.iobs.get((x.cid, "crash"))
+        if crash:
+            # an abort of the harness (double free, failed huge allocation, ...) is blamed on the
+            # properties that depend on the operation that was running
+            durings = re.findall(r"during=([\w?]+)", crash) or ["?"]
+            during = next((d for d in durings if d == "?" or d in CRASH_OPS.get(prop, ())), None)
+            if during is not None:
+                r = "the process aborted during operation '%s' on this case: %s" % (during, crash)
+            else:
+                r = oracle(c, x) if all((x.cid, op) in c.iobs for op in ops if op in ("ser", "full", "eps:0")) else None
+        else:
+            r = oracle(c, x)
         if isinstance(r, tuple) and r[0] == "known":
             # r = ('known', finding id, what failed): suppressed only when the finding is listed
             if known_listed(prop, r[1]):
@@ -205,6 +223,15 @@ def oracle_c07(c, x):
     e = c.iobs.get((x.cid, "eps:0"), "")
     if e.startswith("OK") and not e.endswith("pos=%x rest=0" % n):
         return "eps-copy deserialization did not consume exactly the %d bytes written" % n
+    pl = re.match(r"(.*) misaligned=(\d+)", c.iobs.get((x.cid, "place"), ""))
+    if pl and impl_need(c, x) is not None and tinfo(c, x).get("exh") != "1":
+        if int(pl.group(2)):
+            return "the unit of a zero-copy block is smaller than the native alignment of its type: from some base address eps-copy returns a misaligned reference"
+        r = 0
+        for code, cnt in parse_rle(pl.group(1)):
+            if code in ("P", "PANIC"):
+                return "the unit of a zero-copy block is smaller than the native alignment of its type: at base residue %d eps-copy hits the alignment assertion instead of returning AlignmentError" % r
+            r += cnt
     sch = c.iobs.get((x.cid, "schema"), "")
     m = re.search(r"rows=(\S*)", sch)
     if not m:
